@@ -110,6 +110,8 @@ type Engine struct {
 	faultAt  map[string]int
 	osLog    []osCall
 	schedTrace []string
+	tarScript  []tarEntry
+	namedErrs  map[string]value
 
 	// scheduler
 	gors         []*gor
@@ -826,6 +828,10 @@ func (e *Engine) nextRune(it *mapIter) value {
 
 func (e *Engine) makeSlice(et types.Type, ln, cp int) Slice {
 	arr := make([]value, cp)
+	if _, basic := et.Underlying().(*types.Basic); basic && cp >= 1<<15 {
+		// large buffers (tar's 150 KiB / 4 MiB pools): cells stay nil, which every read treats as the zero value
+		return Slice{arr, 0, ln, cp}
+	}
 	z := e.zero(et)
 	switch z.(type) {
 	case Struct, Array:
@@ -935,6 +941,9 @@ func (fr *frame) unop(in *ssa.UnOp) value {
 		p := x.(*value)
 		if p == nil {
 			panic(rtPanic("invalid memory address or nil pointer dereference"))
+		}
+		if *p == nil {
+			return e.zero(in.Type()) // lazily zeroed cell of a large buffer
 		}
 		return copyVal(*p)
 	case token.NOT:
